@@ -477,11 +477,11 @@ class BytesIO(IOBase):
                     self._conn.send(request)
                     self.comLog('> %s', hexify(request))
                     reply = self._conn.readbytes(replylen, self.timeout)
+                    self.comLog('< %s', hexify(reply))
+                    return self.getFullReply(request, reply)
                 except ConnectionClosed:
                     self.closeConnection()
                     raise CommunicationFailedError('disconnected') from None
-                self.comLog('< %s', hexify(reply))
-                return self.getFullReply(request, reply)
         except Exception as e:
             if self._conn is None:
                 raise SilentError('disconnected') from None
